@@ -78,7 +78,9 @@ def regenerate() -> tuple[bool, str]:
 def prop_modules(prop: str) -> list[str]:
     """Props/Cxx.lean plus its satellite files Props/Cxx<suffix>.lean (e.g. C02lex, C13name)"""
     d = LEAN / "DictIO" / "Props"
-    return sorted(f.stem for f in d.glob(f"{prop}*.lean") if re.fullmatch(re.escape(prop) + r"[a-z]*", f.stem))
+    registered = set(re.findall(r"^import DictIO\.Props\.(\S+)", (LEAN / "DictIO.lean").read_text(), re.M))
+    # only files imported by the library root count (a proof file under development is not an obligation yet)
+    return sorted(f.stem for f in d.glob(f"{prop}*.lean") if re.fullmatch(re.escape(prop) + r"[a-z]*", f.stem) and f.stem in registered)
 
 
 def theorem_names(prop: str) -> list[str]:
